@@ -41,6 +41,7 @@ type Case struct {
 	TSTime        int64
 	Exts          map[string]any
 	SigAlgo       int
+	ClientVersion string // "" = 8.1
 }
 
 func genWeird(t *rapid.T, label string, allowEmpty bool) string {
@@ -85,6 +86,8 @@ func gen(t *rapid.T) Case {
 		CAAlgo:  rapid.SampledFrom([]int{0, 0, 1, 2, 3, 4, 5, 7, 100}).Draw(t, "caAlgo"),
 		UserKey: rapid.SampledFrom([]string{"p256b", "ed25519b", "rsa2048b", "p384a"}).Draw(t, "userKey"),
 		Via:     rapid.SampledFrom([]string{"direct", "direct", "env"}).Draw(t, "via"),
+		// the client-declared OpenSSH version (a claim like the others: around the releases that introduced ECDSA 5.7 and Ed25519 6.5)
+		ClientVersion: rapid.SampledFrom([]string{"", "", "8.1", "5.6", "5.7", "6.4", "6.5", "0.0", "1.0", "4.3", "9.9", "65535.65535", "0.1"}).Draw(t, "clientVersion"),
 	}
 	if rapid.Bool().Draw(t, "claims") {
 		c.Touch2SSH = rapid.Bool().Draw(t, "touch2SSH")
@@ -177,7 +180,7 @@ func exec(c Case) (vh.Outcome, error) {
 	var transIDs []string
 	for round := 0; round < 2; round++ {
 		param, perr := vh.BuildParam(vh.ParamSpec{LogName: c.LogName, Policy: "NONS", ReqUser: c.ReqUser, ReqHost: c.ReqHost, ClientIP: c.IP, TransID: c.TransID, CAAlgo: c.CAAlgo, Via: c.Via,
-			Touch2SSH: c.Touch2SSH, TSFirefighter: c.TSFirefighter, TSHosts: c.TSHosts, TSTime: c.TSTime, Exts: c.Exts, SigAlgo: c.SigAlgo})
+			Touch2SSH: c.Touch2SSH, TSFirefighter: c.TSFirefighter, TSHosts: c.TSHosts, TSTime: c.TSTime, Exts: c.Exts, SigAlgo: c.SigAlgo, ClientVersion: c.ClientVersion})
 		if perr != nil {
 			return out, vh.Errf("parameters did not build: %v", perr)
 		}
@@ -268,7 +271,7 @@ func exec(c Case) (vh.Outcome, error) {
 	return out, nil
 }
 
-const rule = "login name, client-declared user and host, transaction id with JSON metacharacters (quotes, backslash, an injection attempt, U+2028), non-ASCII, spaces; IPv4/IPv6 source; requested CA key algorithm 0..5, 7, 100; further client claims in the message (touch-to-SSH, touchless-sudo with firefighter / hosts / time, signature algorithm, extension map with attribute look-alikes) that must not reach the request; handler configuration written as JSON and loaded by config.NewGensignConfig: validity 1 s..10 y (edges 1, 3599, 3600, 2^31, 315360000) or omitted (default 12 h), key_identifiers keyed by algorithm name in random case, by default/unknown, or by number, with or without the requested algorithm; parameters built directly or through NewReqParam; honest agent, recording CA; each Case issues the request twice. Oracle on the request seen by the CA: principals = [login name]; validity = configured; extensions = the five documented names with empty values; key slot = the one configured for the requested algorithm (reference resolution of names / numbers), none => HandlerConfErr and no CA call; public key parses, is not the registered key, differs between the two requests and equals the public half of the private key the agent received; KeyId decoded by the reference decoder and by keyid.Unmarshal: single principal = login name, transaction id / ip / declared user / host verbatim, version 1, all flags false, usage 0, never-touch. Non-trivial: declared user != login name, a metacharacter or non-ASCII value, or a non-default algorithm."
+const rule = "login name, client-declared user and host, transaction id with JSON metacharacters (quotes, backslash, an injection attempt, U+2028), non-ASCII, spaces; IPv4/IPv6 source; requested CA key algorithm 0..5, 7, 100; further client claims in the message (declared OpenSSH version incl. those older than ECDSA / Ed25519 support, touch-to-SSH, touchless-sudo with firefighter / hosts / time, signature algorithm, extension map with attribute look-alikes) that must not reach the request; handler configuration written as JSON and loaded by config.NewGensignConfig: validity 1 s..10 y (edges 1, 3599, 3600, 2^31, 315360000) or omitted (default 12 h), key_identifiers keyed by algorithm name in random case, by default/unknown, or by number, with or without the requested algorithm; parameters built directly or through NewReqParam; honest agent, recording CA; each Case issues the request twice. Oracle on the request seen by the CA: principals = [login name]; validity = configured; extensions = the five documented names with empty values; key slot = the one configured for the requested algorithm (reference resolution of names / numbers), none => HandlerConfErr and no CA call; public key parses, is not the registered key, differs between the two requests and equals the public half of the private key the agent received; KeyId decoded by the reference decoder and by keyid.Unmarshal: single principal = login name, transaction id / ip / declared user / host verbatim, version 1, all flags false, usage 0, never-touch. Non-trivial: declared user != login name, a metacharacter or non-ASCII value, or a non-default algorithm."
 
 func TestC02Request(t *testing.T) {
 	vh.Run(t, vh.Spec[Case]{Property: "C02", Name: "TestC02Request", Rule: rule, Gen: gen, Exec: exec})
